@@ -9,6 +9,9 @@ CONSTANTS
   WriterFollowsOwnSCS = TRUE
   HsOrder = "free"
   HsReadExact = TRUE
+  ScsSids = {0}
+  ReaderScsAnySid = TRUE
+  LazyFlushTypes = {}
 INVARIANTS NoDesync PrefixOk InFollowsOut Independent AllDelivered HandshakeBytes HsExact NoByteLost SessionAfterHandshake
 VIEW NoHistory
 CHECK_DEADLOCK FALSE
